@@ -179,6 +179,10 @@ type c04Inst struct {
 	desc   string // "<opcode.suffixes> <types> <operands>" (for accept-build / accept-exec lines)
 	res    *c04Result
 	status string // "", "asm-rejected", "crashed: …"
+	// alias != nil: an instance in which several entries of the row share one register (c04alias.go);
+	// noMeasure != "": why it is judged on its declared sets only and not executed
+	alias     *c04AliasPlan
+	noMeasure string
 }
 
 var c04GPName = [16]string{"AX", "CX", "DX", "BX", "SP", "BP", "SI", "DI", "R8", "R9", "R10", "R11", "R12", "R13", "R14", "R15"}
@@ -385,6 +389,15 @@ func c04Instantiate(db *formsDB, seed uint64, row *formRow, choice, sfxIdx int) 
 	if len(row.Suffixes) > 0 {
 		in.sfx = row.Suffixes[sfxIdx%len(row.Suffixes)]
 	}
+	var alias *c04AliasPlan
+	if choice >= c04ChoiceAliasBase {
+		plans := c04AliasPlans(row)
+		if choice-c04ChoiceAliasBase >= len(plans) {
+			return nil, "no such alias plan"
+		}
+		alias = &plans[choice-c04ChoiceAliasBase]
+		in.alias = alias
+	}
 	// registers that the form fixes (implicit operands and fixed-register operand types) are kept out of the pools
 	fixedGP := map[int]bool{4: true}
 	fixedVec := map[int]bool{}
@@ -462,6 +475,30 @@ func c04Instantiate(db *formsDB, seed uint64, row *formRow, choice, sfxIdx int) 
 		return out
 	}
 	p := &c04Pools{r: r, gp: c04Shuffle(r, filter(gpc, fixedGP)), vec: c04Shuffle(r, filter(vecc, fixedVec)), k: c04Shuffle(r, []int{1, 2, 3, 4, 5, 6, 7})}
+	// the register several entries share in an alias instance: the one the row fixes, or one taken out of the pool
+	aliasIdx := -1
+	if alias != nil {
+		aliasIdx = alias.fixed
+		if aliasIdx < 0 {
+			pool := &p.gp
+			switch alias.kind {
+			case reg.KindVector:
+				pool = &p.vec
+			case reg.KindOpmask:
+				pool = &p.k
+			}
+			for j, g := range *pool {
+				if !alias.low4 || g < 4 {
+					aliasIdx = g
+					*pool = append((*pool)[:j:j], (*pool)[j+1:]...)
+					break
+				}
+			}
+			if aliasIdx < 0 {
+				return nil, "register pool exhausted"
+			}
+		}
+	}
 	// special implicit-register constraints
 	memfill := 0
 	switch {
@@ -502,23 +539,33 @@ func c04Instantiate(db *formsDB, seed uint64, row *formRow, choice, sfxIdx int) 
 		}
 		return c04Vec(i, s)
 	}
-	mem := func(vecIndex reg.Spec, elem int) operand.Op {
-		b := newGP(reg.S64)
+	// memWith: forceBase / forceIndex != nil: the address register is given (alias instances)
+	memWith := func(vecIndex reg.Spec, elem int, forceBase, forceIndex reg.Register) operand.Op {
+		b := forceBase
+		if b == nil {
+			b = newGP(reg.S64)
+		}
 		if b == nil {
 			return nil
 		}
 		in.plan.GP = append(in.plan.GP, c04GPCons{Reg: gpSlot(b), And: 0xfc0, Ptr: true})
 		m := operand.Mem{Base: b, Disp: pick(r, []int{0, 0, 64, 128})}
 		if vecIndex != 0 {
-			x := newVec(vecIndex)
+			x := forceIndex
+			if x == nil {
+				x = newVec(vecIndex)
+			}
 			if x == nil {
 				return nil
 			}
 			in.plan.Vec = append(in.plan.Vec, c04VecCons{Reg: int(x.(reg.Physical).PhysicalIndex()), Elem: elem, And: 0x3f})
 			m.Index = x
 			m.Scale = pick(r, []uint8{1, 2, 4, 8})
-		} else if choice == 1 || (choice >= 3 && r.chance(1, 2)) {
-			x := newGP(reg.S64)
+		} else if forceIndex != nil || choice == 1 || (choice >= 3 && r.chance(1, 2)) {
+			x := forceIndex
+			if x == nil {
+				x = newGP(reg.S64)
+			}
 			if x == nil {
 				return nil
 			}
@@ -528,6 +575,7 @@ func c04Instantiate(db *formsDB, seed uint64, row *formRow, choice, sfxIdx int) 
 		}
 		return m
 	}
+	mem := func(vecIndex reg.Spec, elem int) operand.Op { return memWith(vecIndex, elem, nil, nil) }
 	prevByType := map[string]reg.Register{}
 	sameUsed := false
 	for _, t := range row.TypeNames {
@@ -541,6 +589,10 @@ func c04Instantiate(db *formsDB, seed uint64, row *formRow, choice, sfxIdx int) 
 		}
 		t := row.TypeNames[i]
 		var op operand.Op
+		aliased := alias != nil && alias.has(i) && c04FixedOfType(t) == nil // (a fixed-register type is the shared register already)
+		if aliased {
+			t = "alias:" + t
+		}
 		regOf := func(mk func() reg.Register) operand.Op {
 			if choice == c04ChoiceOtherView && t == "r8" {
 				// the low and the high byte of ONE of AX..BX: same identity, different bytes
@@ -665,12 +717,41 @@ func c04Instantiate(db *formsDB, seed uint64, row *formRow, choice, sfxIdx int) 
 		case "vm64z":
 			op = mem(reg.S512, 8)
 		default:
-			return nil, "operand type " + t
+			if !strings.HasPrefix(t, "alias:") {
+				return nil, "operand type " + t
+			}
+		}
+		if aliased {
+			// this entry takes (its view of) the shared register
+			t = strings.TrimPrefix(t, "alias:")
+			if vs, el, isMem := c04MemShape(t); isMem {
+				var fb, fi reg.Register
+				role := alias.role[i]
+				if role&c04RoleBase != 0 {
+					fb = c04GP(aliasIdx, reg.S64)
+				}
+				if role&c04RoleIndex != 0 {
+					if vs != 0 {
+						fi = c04Vec(aliasIdx, vs)
+					} else {
+						fi = c04GP(aliasIdx, reg.S64)
+					}
+				}
+				op = memWith(vs, el, fb, fi)
+			} else if x := c04AliasView(alias.kind, aliasIdx, t, alias.high[i]); x != nil {
+				op = x
+			}
+			if op == nil {
+				return nil, "alias view of " + t
+			}
 		}
 		if op == nil {
 			return nil, "register pool exhausted"
 		}
 		in.ops = append(in.ops, op)
+	}
+	if alias != nil {
+		in.noMeasure = c04AliasUnmeasurable(row, alias, divW != 0)
 	}
 	if divW != 0 && len(in.ops) > 0 {
 		if d, ok := in.ops[0].(reg.Register); ok {
@@ -742,6 +823,22 @@ func c04Instantiate(db *formsDB, seed uint64, row *formRow, choice, sfxIdx int) 
 		memfill = 5
 	}
 	in.plan.MemFill = memfill
+	if alias != nil && in.noMeasure == "" {
+		seen := map[int]bool{}
+		for _, c := range in.plan.GP {
+			if seen[c.Reg] {
+				in.noMeasure = "two state constraints on one register"
+			}
+			seen[c.Reg] = true
+		}
+		seenV := map[int]bool{}
+		for _, c := range in.plan.Vec {
+			if seenV[c.Reg] {
+				in.noMeasure = "two state constraints on one register"
+			}
+			seenV[c.Reg] = true
+		}
+	}
 	types := strings.Join(row.explicitTypes(), ",")
 	if types == "" {
 		types = "-"
@@ -1110,6 +1207,8 @@ func init() {
 		choices := f.fs.Int("choices", 3, "register choices per form")
 		allSfx := f.fs.Bool("allsfx", false, "one instance per suffix set of the form's suffix class (at least -choices)")
 		only := f.fs.String("only", "", "regexp: only opcodes matching")
+		aliasEvery := f.fs.Int("aliasevery", 4, "alias instances among explicit operands only are EXECUTED for one row in this many (0: none); those involving implicit or fixed registers always are")
+		noAlias := f.fs.Bool("noalias", false, "no alias instances at all")
 		if err := f.fs.Parse(args); err != nil {
 			return err
 		}
@@ -1129,11 +1228,13 @@ func init() {
 		if err != nil {
 			return err
 		}
+		hostOK := true
 		if need := []string{"avx512f", "avx512bw", "avx512dq", "avx512vl"}; !(flags[need[0]] && flags[need[1]] && flags[need[2]] && flags[need[3]]) {
 			// the trampoline loads and stores Z0-Z31 and K0-K7 with AVX-512 instructions: on such a host nothing can be
-			// measured; say so instead of crashing every child
+			// measured; say so instead of crashing every child.  The alias instances are still judged on their declared
+			// sets (no row is eligible for execution).
 			o.emit("accept-build host - - - built", "ok")
-			return writeJSON(*f.stats, map[string]any{"host_unsupported": "host CPU lacks AVX-512 F/BW/DQ/VL", "counts": map[string]int{}})
+			hostOK = false
 		}
 		var onlyRe *regexp.Regexp
 		if *only != "" {
@@ -1147,9 +1248,10 @@ func init() {
 		denied := map[string]int{}
 		deniedWhy := map[string]string{}
 		var eligible []*formRow
+		eligibleSet := map[int]bool{}
 		for i := range db.rows {
 			row := &db.rows[i]
-			if onlyRe != nil && !onlyRe.MatchString(row.Opcode) {
+			if !hostOK || (onlyRe != nil && !onlyRe.MatchString(row.Opcode)) {
 				continue
 			}
 			missing := ""
@@ -1172,10 +1274,12 @@ func init() {
 				continue
 			}
 			eligible = append(eligible, row)
+			eligibleSet[row.Index] = true
 		}
 		type sel struct {
 			row            *formRow
 			choice, sfxIdx int
+			measure        bool // alias instances: execute it as well (when it can be)
 		}
 		var sels []sel
 		replayIDs := map[string]bool{}
@@ -1184,7 +1288,7 @@ func init() {
 			if err != nil {
 				return err
 			}
-			idRe := regexp.MustCompile(`^accept-(?:rw|exec|build) f(\d+)\.c(\d+)\.s(\d+) ([A-Z0-9]+)\S* (\S+) `)
+			idRe := regexp.MustCompile(`^accept-(?:rw|exec|build|decl) f(\d+)\.c(\d+)\.s(\d+) ([A-Z0-9]+)\S* (\S+) `)
 			for _, l := range lines {
 				if m := idRe.FindStringSubmatch(l); m != nil {
 					fi, _ := strconv.Atoi(m[1])
@@ -1210,7 +1314,7 @@ func init() {
 					key := fmt.Sprintf("%d.%d.%d", fi, c, s)
 					if fi < len(db.rows) && !replayIDs[key] {
 						replayIDs[key] = true
-						sels = append(sels, sel{&db.rows[fi], c, s})
+						sels = append(sels, sel{&db.rows[fi], c, s, eligibleSet[fi]})
 					}
 				}
 			}
@@ -1232,7 +1336,7 @@ func init() {
 				}
 				off := r.intn(1 << 16)
 				for c := 0; c < n; c++ {
-					sels = append(sels, sel{row, c, (c + off) % max(1, len(row.Suffixes))})
+					sels = append(sels, sel{row, c, (c + off) % max(1, len(row.Suffixes)), false})
 				}
 				// forms with two 8-bit register operands: additionally the two byte views of one register
 				n8 := 0
@@ -1242,7 +1346,45 @@ func init() {
 					}
 				}
 				if n8 >= 2 {
-					sels = append(sels, sel{row, c04ChoiceOtherView, off % max(1, len(row.Suffixes))})
+					sels = append(sels, sel{row, c04ChoiceOtherView, off % max(1, len(row.Suffixes)), false})
+				}
+			}
+		}
+		nOrdinary := len(sels)
+		// alias instances (c04alias.go): every plan of every row of the table — the judgement on the declared sets needs
+		// no execution, so rows the host cannot run are included; executed where possible
+		aliasExpected := map[string]map[int]bool{"impl": {}, "fixed": {}, "expl": {}}
+		if *f.replay == "" && !*noAlias {
+			var rows []*formRow
+			if *f.n > 0 && *f.n < len(eligible) {
+				for _, s := range sels {
+					if len(rows) == 0 || rows[len(rows)-1] != s.row {
+						rows = append(rows, s.row)
+					}
+				}
+			} else {
+				for i := range db.rows {
+					if onlyRe == nil || onlyRe.MatchString(db.rows[i].Opcode) {
+						rows = append(rows, &db.rows[i])
+					}
+				}
+			}
+			for _, row := range rows {
+				plans := c04AliasPlans(row)
+				if len(plans) == 0 {
+					continue
+				}
+				off := r.intn(1 << 16)
+				execExpl := *aliasEvery > 0 && r.intn(*aliasEvery) == 0
+				explPick := r.intn(len(plans))
+				for k := range plans {
+					tag := plans[k].tag
+					if m, ok := aliasExpected[tag]; ok {
+						m[row.Index] = true
+					}
+					measure := eligibleSet[row.Index] && (tag == "impl" || tag == "fixed" || (execExpl && k == explPick) ||
+						(tag == "all" && plans[k].fixed >= 0))
+					sels = append(sels, sel{row, c04ChoiceAliasBase + k, (k + off) % max(1, len(row.Suffixes)), measure})
 				}
 			}
 		}
@@ -1253,13 +1395,36 @@ func init() {
 		rowWhy := map[int]string{}      // row index -> why an instance of it was not measured (last reason)
 		rowMeasured := map[int]bool{}   // row index -> some instance generated for it was measured
 		var insts []*c04Inst
+		as := newC04AliasStats()
 		for _, s := range sels {
+			isAlias := s.choice >= c04ChoiceAliasBase
 			in, why := c04Instantiate(db, *f.seed, s.row, s.choice, s.sfxIdx)
 			if in != nil && why != "" {
 				// a panic of the real code on an instruction it accepted is a violation, not a statistic
 				o.emit("accept-build "+in.id+" "+in.desc+" "+strings.ReplaceAll(why, " ", "_"), "ok")
 				stats["panics"]++
-				rowWhy[s.row.Index] = "panic"
+				if !isAlias {
+					rowWhy[s.row.Index] = "panic"
+				}
+				continue
+			}
+			if isAlias {
+				as.requested++
+				if in == nil {
+					as.notBuilt[why]++
+					continue
+				}
+				// judged on what the real code declares, whether or not the host can execute it
+				c04EmitDecl(o, in)
+				as.judged(in)
+				if !s.measure || in.noMeasure != "" {
+					if s.measure {
+						as.unmeasurable[in.noMeasure]++
+					}
+					continue
+				}
+				as.toMeasure(in)
+				insts = append(insts, in)
 				continue
 			}
 			if in == nil {
@@ -1270,12 +1435,24 @@ func init() {
 				continue
 			}
 			insts = append(insts, in)
+			stats["instances_built"]++
 		}
 		stats["forms_in_table"] = len(db.rows)
 		stats["forms_eligible"] = len(eligible)
-		stats["instances_requested"] = len(sels)
-		stats["instances_built"] = len(insts)
+		if *f.replay != "" {
+			nOrdinary = 0
+			for _, s := range sels {
+				if s.choice < c04ChoiceAliasBase {
+					nOrdinary++
+				}
+			}
+		}
+		stats["instances_requested"] = nOrdinary
 
+		if !hostOK {
+			return writeJSON(*f.stats, map[string]any{"host_unsupported": "host CPU lacks AVX-512 F/BW/DQ/VL", "counts": map[string]int{},
+				"alias": as.report(aliasExpected)})
+		}
 		// ---- generate, build and run child programs
 		gen := filepath.Join(*work, "gen")
 		if err := c04SetupModule(gen); err != nil {
@@ -1369,6 +1546,13 @@ func init() {
 		for _, in := range insts {
 			switch {
 			case strings.HasPrefix(in.status, "asm-rejected"):
+				if in.alias != nil {
+					as.asmRejected++
+					if len(as.asmRejectedEx) < 20 {
+						as.asmRejectedEx = append(as.asmRejectedEx, in.text+"  ["+tail(in.status, 160)+"]")
+					}
+					continue
+				}
 				asmRejected[in.m.Opcode]++
 				if len(rejectedEx) < 40 {
 					rejectedEx = append(rejectedEx, in.text+"  ["+tail(in.status, 160)+"]")
@@ -1388,10 +1572,18 @@ func init() {
 					isas = "-"
 				}
 				o.emit("accept-exec "+in.id+" "+in.desc+" "+isas+" "+strings.ReplaceAll(strings.TrimPrefix(in.status, "crashed: "), " ", "_"), "ok")
+				if in.alias != nil {
+					as.crashed++
+					continue
+				}
 				stats["crashed_instances"]++
 				rowWhy[in.row.Index] = in.status
 				continue
 			case in.res == nil:
+				if in.alias != nil {
+					as.noResult++
+					continue
+				}
 				stats["not_measured"]++
 				rowWhy[in.row.Index] = "no result"
 				continue
@@ -1435,14 +1627,22 @@ func init() {
 			req := fmt.Sprintf("accept-rw %s %s %s %s %s D %s %s O %s %s", in.id, opc, types, isas, opsTxt,
 				encMaskSet(in.declR), encMaskSet(in.declW), encMaskSet(obsR), encMaskSet(obsW))
 			o.emit(req, "ok")
-			o.emit("usedef "+in.usedef, encMaskSet(in.declR)+" "+encMaskSet(in.declW))
-			o.emit("build-rw "+c04EncBuildRW(in.m, in.ops), encMaskSet(in.declR)+" "+encMaskSet(in.declW))
-			stats["measured"]++
-			rowMeasured[in.row.Index] = true
-			c04Account(acct, in, obsR, obsW)
-			byClass[c04Class(in.m)]++
+			if in.alias != nil {
+				// `usedef` / `build-rw` of alias instances were written with their `accept-decl`
+				as.measured(in)
+			} else {
+				o.emit("usedef "+in.usedef, encMaskSet(in.declR)+" "+encMaskSet(in.declW))
+				o.emit("build-rw "+c04EncBuildRW(in.m, in.ops), encMaskSet(in.declR)+" "+encMaskSet(in.declW))
+				stats["measured"]++
+				rowMeasured[in.row.Index] = true
+				c04Account(acct, in, obsR, obsW)
+				byClass[c04Class(in.m)]++
+			}
 			if len(res.Wit) > 0 {
 				witnesses = append(witnesses, map[string]any{"id": in.id, "asm": in.text, "witness": res.Wit})
+			}
+			if in.alias != nil {
+				continue
 			}
 			if len(obsR) > 0 {
 				stats["with_observed_reads"]++
@@ -1506,6 +1706,7 @@ func init() {
 			"declared_reads_never_observed":  ur,
 			"declared_writes_never_observed": uw,
 			"states_per_instance":     *states,
+			"alias":                   as.report(aliasExpected),
 		})
 	})
 }
